@@ -733,9 +733,9 @@ Proof.
   destruct (enc_store_keeps (sk_pos s) ft_positive Hp) as [A1 [A2 A3]].
   destruct (enc_store_keeps (sk_neg s) ft_negative Hn) as [B1 [B2 B3]]. auto 10.
 Qed.
-(* encoding again gives a sketch of the same state again, and the bytes do not depend on [omit] but for the mapping block:
-   the trivial half of "only appends": the encoder has no buffer argument; the Go encoders all do
-   [*b = append( *b, ...)], i.e. the function below *)
+(* "only appends to the caller's buffer": [enc_sketch] has no buffer argument. Every Go encoder does
+   [*b = append( *b, ...)]; making the buffer explicit in that way gives the function below, for which the
+   clause is a list identity: a remark on the shape of the model, not a fact about the code *)
 Definition enc_sketch_into (buf : list byte) (s : sketch) (omit : bool) : sketch * list byte :=
   (fst (enc_sketch s omit), buf ++ snd (enc_sketch s omit)).
 Remark enc_sketch_into_appends buf s omit :
@@ -1126,4 +1126,25 @@ Proof.
   - destruct (x_into_plain {| fD2 := true; fD3 := true |} (wit_sketch (Some wit_stats)) false (ds_fresh None KSparse false)
                 eq_refl (wit_src_ok _) Hd I eq_refl) as (d' & D & _); [discriminate|]. exists d'. exact D.
   - vm_compute. reflexivity.
+Qed.
+
+(* the defined flags, decidably *)
+Definition known_flagb (f : N) : bool :=
+  ((((flag_type f =? ft_positive) || (flag_type f =? ft_negative))
+    && ((flag_sub f =? sub_idx_deltas_counts) || (flag_sub f =? sub_idx_deltas) || (flag_sub f =? sub_contiguous)))
+   || ((flag_type f =? ft_mapping) && kind_okb (N.shiftr f 2))
+   || (f =? flag_zero_count) || (f =? flag_count) || (f =? flag_sum) || (f =? flag_min) || (f =? flag_max))%N.
+Lemma kind_okb_true k : WireProofs.kind_ok k -> kind_okb k = true.
+Proof. intros [-> | [-> | ->]]; reflexivity. Qed.
+Lemma known_flagb_false f : known_flagb f = false -> ~ known_flag f.
+Proof.
+  intros H K. unfold known_flagb in H.
+  destruct K as [[A B]|[[A B]|K]].
+  - assert (E1 : ((flag_type f =? ft_positive) || (flag_type f =? ft_negative))%N = true).
+    { destruct A as [A|A]; rewrite A; reflexivity. }
+    assert (E2 : ((flag_sub f =? sub_idx_deltas_counts) || (flag_sub f =? sub_idx_deltas) || (flag_sub f =? sub_contiguous))%N = true).
+    { destruct B as [B|[B|B]]; rewrite B; reflexivity. }
+    rewrite E1, E2 in H. discriminate H.
+  - rewrite A, (kind_okb_true _ B) in H. cbn in H. rewrite ?orb_true_r in H. discriminate H.
+  - destruct K as [K|[K|[K|[K|K]]]]; subst f; discriminate H.
 Qed.
